@@ -773,3 +773,93 @@ pub(crate) fn h_include_missing() {
         }
     }
 }
+
+// ------------------------------------------------------------------ C06: strict and non-strict loading agree except on recoverable problems
+
+fn is_deprecation(e: &A2lError) -> bool {
+    match e {
+        A2lError::ParserError { parser_error } => matches!(parser_error, ParserError::BlockRefDeprecated { .. } | ParserError::EnumRefDeprecated { .. }),
+        _ => false,
+    }
+}
+
+fn error_line(e: &A2lError) -> Option<u32> {
+    match e {
+        A2lError::ParserError { parser_error } => match parser_error {
+            ParserError::UnexpectedTokenType { error_line, .. } | ParserError::MalformedNumber { error_line, .. }
+            | ParserError::InvalidEnumValue { error_line, .. } | ParserError::InvalidMultiplicityTooMany { error_line, .. }
+            | ParserError::InvalidMultiplicityNotPresent { error_line, .. } | ParserError::IncorrectBlockError { error_line, .. }
+            | ParserError::IncorrectKeywordError { error_line, .. } | ParserError::IncorrectEndTag { error_line, .. }
+            | ParserError::UnknownSubBlock { error_line, .. } | ParserError::UnexpectedEOF { error_line, .. }
+            | ParserError::StringTooLong { error_line, .. } | ParserError::BlockRefTooNew { error_line, .. }
+            | ParserError::BlockRefDeprecated { error_line, .. } | ParserError::EnumRefTooNew { error_line, .. }
+            | ParserError::EnumRefDeprecated { error_line, .. } | ParserError::InvalidIdentifier { error_line, .. }
+            | ParserError::AdditionalTokensError { error_line, .. } => Some(*error_line),
+            _ => None,
+        },
+        _ => None,
+    }
+}
+
+/// one document per fault kind; the faulty token stands alone on line 6
+fn faulty_document(kind: u32) -> (String, bool) {
+    // returns (text, fault is recoverable)
+    let version = if kind == 7 || kind == 8 { "1 60" } else { "1 71" };
+    let mut t = String::from("ASAP2_VERSION ");
+    t.push_str(version);
+    t.push_str("\n/begin PROJECT p \"\"\n/begin MODULE m \"\"\n/begin MEASUREMENT ms \"\" UBYTE NO_COMPU_METHOD 0 0 0 255\nECU_ADDRESS 0x10\n");
+    // line 6:
+    let (line6, recoverable) = match kind {
+        0 => ("FORMAT \"%6.3\"\n", true),                 // no fault
+        1 => ("PHYS_UNIT unquoted\n", true),              // identifier in place of a string
+        2 => ("FROBNICATE 1 2\n", true),                  // unknown keyword
+        3 => ("ECU_ADDRESS 0x20\n", true),                // optional element occurs too often
+        4 => ("/begin FORMAT \"%6.3\" /end FORMAT\n", false), // keyword written as block: hard fault in both modes
+        5 => ("BYTE_ORDER MSB_LAST_ODD\n", false),        // unknown enum value: hard fault
+        6 => ("ECU_ADDRESS\n", false),                    // missing parameter: hard fault
+        7 => ("ADDRESS_TYPE PBYTE\n", true),              // element newer than the declared file version (1.7.0 > 1.6.0)
+        8 => ("FORMAT \"%6.3\"\n", true),                 // older version, nothing wrong
+        9 => ("/begin FUNCTION_LIST 1fn /end FUNCTION_LIST\n", true), // identifier starting with a digit
+        _ => ("FORMAT \"%6.3\"\n", true),
+    };
+    t.push_str(line6);
+    t.push_str("/end MEASUREMENT\n/end MODULE\n/end PROJECT\n");
+    if kind == 10 { t.push_str("SOMETHING_ELSE\n"); }      // additional tokens after the end of the file content
+    (t, recoverable)
+}
+
+pub(crate) fn h_strict_vs_nonstrict() {
+    let kind = vrt_choice(11);
+    let (text, _recoverable) = faulty_document(kind);
+    let strict = load_from_string(&text, None, true);
+    let relaxed = load_from_string(&text, None, false);
+    match (&strict, &relaxed) {
+        (Ok((fs, ls)), Ok((fr, lr))) => {
+            vrt_check(fs == fr, "C06 both modes yield equal models when both succeed");
+            vrt_check(ls.iter().all(is_deprecation), "C06 strict loading succeeds only with deprecation notices");
+            vrt_check(lr.iter().all(is_deprecation), "C06 strict loading fails exactly when non-strict loading reports a problem other than a deprecation notice");
+        }
+        (Ok(_), Err(_)) => vrt_check(false, "C06 if strict loading succeeds, non-strict loading succeeds as well"),
+        (Err(_), Ok((_, lr))) => {
+            vrt_check(lr.iter().any(|e| !is_deprecation(e)), "C06 if non-strict loading succeeds without problems, strict loading succeeds");
+            // every diagnostic carries the line of the token at which the problem was detected (the fault is on line 6,
+            // additional tokens on line 10)
+            for e in lr.iter() {
+                if let Some(l) = error_line(e) {
+                    vrt_check(l == 6 || (kind == 10 && l == 10), "C06 every diagnostic carries the line of the token at which the problem was detected");
+                }
+            }
+        }
+        (Err(_), Err(_)) => {}
+    }
+    vrt_observe_bool(strict.is_ok());
+    vrt_observe_bool(relaxed.is_ok());
+    match kind {
+        0 | 8 => vrt_check(strict.is_ok(), "C06 a valid document loads in strict mode"),
+        1 | 2 | 3 | 7 | 9 | 10 => {
+            vrt_check(strict.is_err(), "C06 strict loading rejects a recoverable problem");
+            vrt_check(relaxed.is_ok(), "C06 non-strict loading recovers from a recoverable problem");
+        }
+        _ => {}
+    }
+}
